@@ -5,6 +5,7 @@ import XlModel.DvDelete
 import XlModel.DvRecord
 import XlModel.CfRule
 import XlModel.XmlAttr
+import XlModel.Margins
 import XlModel.Drv.Util
 namespace XlModel.Drv.C18
 open XlModel XlModel.Settings XlModel.Drv
@@ -180,6 +181,34 @@ def showCfOpts (o : CfRule.Opts) : String :=
     hexS o.criteria, hexS o.value, hexS o.minType, hexS o.midType, hexS o.maxType, hexS o.minValue, hexS o.midValue,
     hexS o.maxValue, hexS o.minColor, hexS o.midColor, hexS o.maxColor, hexS o.barColor, hexS o.barBorderColor,
     hexS o.barDirection, b o.barOnly, b o.barSolid, hexS o.iconStyle, b o.reverseIcons, b o.iconsOnly, b o.stopIfTrue]
+
+/-- `pmg`: successive SetPageMargins calls on a fresh sheet, then GetPageMargins -/
+def pmgChunks : Nat → Nat → List String → Option (List (List String))
+  | _, _, [] => some []
+  | 0, _, _ => none
+  | fuel + 1, n, w => if w.length < n then none else (pmgChunks fuel n (w.drop n)).map (w.take n :: ·)
+
+def pmgFlag : String → Option (Option Bool)
+  | "~" => some none
+  | "0" => some (some false)
+  | "1" => some (some true)
+  | _ => none
+
+def runPmg (w : List String) : String :=
+  let n := Facts.C18.marginLoopBound
+  match Margins.defaultsOf Facts.C18.marginSetDefaults, Margins.defaultsOf Facts.C18.marginGetDefaults, pmgChunks w.length (n + 2) w with
+  | some dS, some dG, some calls =>
+    let step (st : Option (Margins.St String)) (c : List String) : Option (Margins.St String) :=
+      match st, pmgFlag (c.getD n ""), pmgFlag (c.getD (n + 1) "") with
+      | some st, some h, some v => some (Margins.setM dS st ⟨(c.take n).map (fun t => if t == "~" then none else some t), h, v⟩)
+      | _, _, _ => none
+    match calls.foldl step (some ⟨none, none⟩) with
+    | none => "bad-op"
+    | some st =>
+      let o := Margins.getM dG st
+      let fb : Option Bool → String := fun b => match b with | none => "~" | some true => "1" | some false => "0"
+      "ok " ++ " ".intercalate (o.m.map (fun x => x.getD "~") ++ [fb o.h, fb o.v])
+  | _, _, _ => "bad-op"
 
 def runCfr (w : List String) : String :=
   match parseCfOpts w with
@@ -454,6 +483,7 @@ def step (st : St) (w : List String) : St × String :=
   | "dvx" :: rest => (st, runDvb true rest)
   | ["phxml"] => (st, protXml st.kind st.prot)
   | "cfr" :: rest => (st, runCfr rest)
+  | "pmg" :: rest => (st, runPmg rest)
   | ["dvdel", rs, d] =>
     match (rs.splitOn ",").mapM unhexS, unhexS d with
     | some rules, some del => (st, runDvDel rules del)
